@@ -2,6 +2,10 @@ import Cpl.Spec.Ring
 import Cpl.Lemmas.Evolve1D
 import Cpl.Properties.C01
 import Cpl.Properties.C03
+import Cpl.Properties.C02
+import Cpl.Properties.C04
+import Cpl.Lemmas.Block
+import Cpl.Lemmas.Dyn2D
 
 /-!
 # C05 — evolution extends the given history and never modifies it (1D `evolve` part)
@@ -101,5 +105,218 @@ theorem evolve_split_pure [DecidableEq α] [Inhabited α] (rule : Rule1 σ α) (
   have e : T1 + T2 - 1 - 1 = (T1 - 1) + (T2 - 1) := by omega
   rw [e, pureRun_add]
   simp [List.append_assoc]
+
+end Cpl.C05
+
+/-!
+# C05 — 2D: `evolve2d` extends the given history and never modifies it
+
+The result is the given grids, unchanged and in order, followed by exactly `T-1` new `R × C` grids that
+depend only on the last given grid; split laws as in 1D.
+-/
+
+namespace Cpl.C05
+open Cpl Cpl.Spec Cpl.Dyn2D
+
+variable {σ α : Type}
+
+/-- **The result extends the history** (2D): given grids unchanged and in order, then `T-1` new grids
+    of the shape `R × C` of the last given grid — every memoize mode (memo and recursive included),
+    every (stateful) rule, every radius and neighbourhood type for which the call succeeds. -/
+theorem evolve2d_extends [DecidableEq α] [Inhabited α] (hist : List (Grid α)) (init : Grid α)
+    (hlast : hist.getLast? = some init) (T : Nat) (rule : Rule2 σ α) (R C r : Nat) (nb : NbType)
+    (hg : Rect init R C) (hR1 : 1 ≤ R) (mode : Mode) (s s' : σ) (out : List (Grid α))
+    (h : evolve2dFixed hist T rule r nb mode s = .ok (out, s')) :
+    ∃ new, out = hist ++ new ∧ new.length = T - 1 ∧ ∀ g ∈ new, Rect g R C := by
+  unfold evolve2dFixed at h
+  rw [hlast] at h
+  simp only at h
+  split at h
+  · cases h
+  · split at h
+    · cases h
+    · split at h
+      · cases h
+      · simp only [Except.ok.injEq, Prod.mk.injEq] at h
+        exact ⟨(fixedLoop2 mode rule r (decide (nb = .vonNeumann)) (T - 1) 1 init Caches2.empty s).1,
+          h.1.symm, fixedLoop2_length mode rule r _ (T - 1) 1 init Caches2.empty s,
+          fixedLoop2_rect mode rule r _ hR1 (T - 1) 1 init Caches2.empty s hg⟩
+
+/-- **Only the last given grid influences the new grids.** -/
+theorem evolve2d_last_only [DecidableEq α] [Inhabited α] (hist hist' : List (Grid α))
+    (hl : hist.getLast? = hist'.getLast?) (T : Nat) (rule : Rule2 σ α) (r : Nat) (nb : NbType)
+    (mode : Mode) (s : σ) :
+    (evolve2dFixed hist T rule r nb mode s).map (fun p => (p.1.drop hist.length, p.2))
+      = (evolve2dFixed hist' T rule r nb mode s).map (fun p => (p.1.drop hist'.length, p.2)) := by
+  unfold evolve2dFixed
+  rw [← hl]
+  cases hist.getLast? with
+  | none => rfl
+  | some init =>
+    simp only
+    split
+    · rfl
+    · split
+      · rfl
+      · split
+        · rfl
+        · simp [Except.map]
+
+/-- `T = 0` is rejected (the guard `T ≥ 1` of the property). -/
+theorem evolve2d_T0 [DecidableEq α] [Inhabited α] (hist : List (Grid α)) (init : Grid α)
+    (hlast : hist.getLast? = some init) (rule : Rule2 σ α) (r : Nat) (nb : NbType) (mode : Mode) (s : σ) :
+    evolve2dFixed hist 0 rule r nb mode s = .error .IndexError := by
+  unfold evolve2dFixed
+  rw [hlast]
+  simp
+
+/-- **Split law (2D), memoization off, any stateful rule that ignores the step number**: evolving for
+    `T1` steps and continuing the result for `T2` steps (rule state carried over) equals `T1+T2-1`
+    steps at once. -/
+theorem evolve2d_split_plain [DecidableEq α] [Inhabited α] (rule : Rule2 σ α) (htf : TimeFree2 rule)
+    (hist : List (Grid α)) (init : Grid α) (hlast : hist.getLast? = some init) (T1 T2 : Nat)
+    (hT1 : 1 ≤ T1) (hT2 : 1 ≤ T2) (R C r : Nat) (nb : NbType) (hnb : nb ≠ .unknown)
+    (hg : Rect init R C) (hR1 : 1 ≤ R) (hC1 : 1 ≤ C) (hR : r ≤ R) (hC : r ≤ C) (s s1 : σ)
+    (mid : List (Grid α)) (hmid : evolve2dFixed hist T1 rule r nb .plain s = .ok (mid, s1)) :
+    evolve2dFixed mid T2 rule r nb .plain s1 = evolve2dFixed hist (T1 + T2 - 1) rule r nb .plain s := by
+  have hrun := C02.evolve2dFixed_plain_eq_spec hist init hlast T1 hT1 rule R C r nb hnb hg hR1 hC1 hR hC s
+  rw [hrun] at hmid
+  simp only [Except.ok.injEq, Prod.mk.injEq] at hmid
+  obtain ⟨hmid1, hs1⟩ := hmid
+  subst hmid1 hs1
+  rw [C02.evolve2dFixed_plain_eq_spec _ _ (getLast?_append_some2 hist _ init hlast) T2 hT2 rule R C r nb
+    hnb (run2_getLast_rect rule R C r _ _ _ init s hg) hR1 hC1 hR hC]
+  rw [C02.evolve2dFixed_plain_eq_spec hist init hlast (T1 + T2 - 1) (by omega) rule R C r nb hnb hg hR1
+    hC1 hR hC s]
+  have e : T1 + T2 - 1 - 1 = (T1 - 1) + (T2 - 1) := by omega
+  rw [e, run2_add]
+  rw [run2_timeFree rule htf R C r _ (T2 - 1) (1 + (T1 - 1)) 1]
+  simp [List.append_assoc]
+
+/-- **Split law (2D) in every memoize mode** for rules whose result depends only on the neighbourhood:
+    the grids of the continued evolution equal those of the evolution at once (the two calls may even
+    use different modes — each call's cache is its own). -/
+theorem evolve2d_split_pure [DecidableEq α] [Inhabited α] (rule : Rule2 σ α) (f : Nbhd2 α → α)
+    (hp : PureVal2 rule f) (m1 m2 m : Mode) (hm1 : m1 ≠ .bad) (hm2 : m2 ≠ .bad) (hm : m ≠ .bad)
+    (hist : List (Grid α)) (init : Grid α) (hlast : hist.getLast? = some init) (T1 T2 : Nat)
+    (hT1 : 1 ≤ T1) (hT2 : 1 ≤ T2) (R C r : Nat) (nb : NbType) (hnb : nb ≠ .unknown)
+    (hg : Rect init R C) (hR1 : 1 ≤ R) (hC1 : 1 ≤ C) (hR : r ≤ R) (hC : r ≤ C) (s s1 s2 : σ)
+    (mid : List (Grid α)) (hmid : evolve2dFixed hist T1 rule r nb m1 s = .ok (mid, s1)) :
+    (evolve2dFixed mid T2 rule r nb m2 s2).map Prod.fst
+      = (evolve2dFixed hist (T1 + T2 - 1) rule r nb m s).map Prod.fst := by
+  have hA := C04.evolve2dFixed_grids_pure rule f hp m1 hm1 hist init hlast T1 hT1 R C r nb hnb hg hR1 hC1
+    hR hC s
+  rw [hmid] at hA
+  simp only [Except.map, Except.ok.injEq] at hA
+  subst hA
+  rw [C04.evolve2dFixed_grids_pure rule f hp m2 hm2 _ _ (getLast?_append_some2 hist _ init hlast) T2 hT2
+    R C r nb hnb (pureRun2_getLast_rect f R C r _ _ init hg) hR1 hC1 hR hC s2]
+  rw [C04.evolve2dFixed_grids_pure rule f hp m hm hist init hlast (T1 + T2 - 1) (by omega) R C r nb hnb hg
+    hR1 hC1 hR hC s]
+  have e : T1 + T2 - 1 - 1 = (T1 - 1) + (T2 - 1) := by omega
+  rw [e, pureRun2_add]
+  simp [List.append_assoc]
+
+/-!
+# C05 — block evolvers (`evolve_block`, `evolve2d_block`)
+
+Whenever the call succeeds (block size ≥ 1 dividing the ring / both grid sides, `T ≥ 1`), the result is
+the given history followed by `T-1` new rows / grids of the input's shape that depend only on the last
+given row / grid. The split law holds for odd `T1` only (see `C10.evolveBlock_split_odd`).
+-/
+
+/-- **`evolve_block` extends the history**: given rows unchanged and in order, then `T-1` new rows of `N` cells. -/
+theorem evolveBlock_extends [Inhabited α] (hist : List (List α)) (init : List α)
+    (hlast : hist.getLast? = some init) (b T : Nat) (rule : BlockRule1 σ α) (s s' : σ)
+    (out : List (List α)) (h : evolveBlock hist b T rule s = .ok (out, s')) :
+    ∃ new, out = hist ++ new ∧ new.length = T - 1 ∧ ∀ row ∈ new, row.length = init.length := by
+  obtain ⟨_, _, _, h1, _⟩ := (evolveBlock_ok_iff hist init hlast b T rule s s' out).mp h
+  exact ⟨_, h1, Block.blockLoop1_length rule b _ _ _ _, Block.blockLoop1_row_length rule b _ _ _ _⟩
+
+/-- **`evolve2d_block` extends the history**: given grids unchanged and in order, then `T-1` new grids
+    with the row count of the last given grid, every row as wide as that grid's first row. -/
+theorem evolve2dBlock_extends [Inhabited α] (hist : List (Grid α)) (init : Grid α)
+    (hlast : hist.getLast? = some init) (b0 b1 T : Nat) (rule : BlockRule2 σ α) (s s' : σ)
+    (out : List (Grid α)) (h : evolve2dBlock hist b0 b1 T rule s = .ok (out, s')) :
+    ∃ new, out = hist ++ new ∧ new.length = T - 1 ∧
+      ∀ g ∈ new, g.length = init.length ∧ Rect g init.length (gridCols init) := by
+  obtain ⟨_, _, _, _, _, h1, _⟩ := (evolve2dBlock_ok_iff hist init hlast b0 b1 T rule s s' out).mp h
+  refine ⟨_, h1, blockLoop2_length rule b0 b1 _ _ _ _, ?_⟩
+  intro g hg
+  have := blockLoop2_rect rule b0 b1 _ _ _ _ g hg
+  exact ⟨this.1, this⟩
+
+/-- **Only the last given row influences the new rows** (`evolve_block`). -/
+theorem evolveBlock_last_only [Inhabited α] (hist hist' : List (List α))
+    (hl : hist.getLast? = hist'.getLast?) (b T : Nat) (rule : BlockRule1 σ α) (s : σ) :
+    (evolveBlock hist b T rule s).map (fun p => (p.1.drop hist.length, p.2))
+      = (evolveBlock hist' b T rule s).map (fun p => (p.1.drop hist'.length, p.2)) := by
+  unfold evolveBlock
+  rw [← hl]
+  cases hist.getLast? with
+  | none => rfl
+  | some init =>
+    simp only
+    split
+    · rfl
+    · split
+      · rfl
+      · split
+        · rfl
+        · simp [Except.map]
+
+/-- **Only the last given grid influences the new grids** (`evolve2d_block`). -/
+theorem evolve2dBlock_last_only [Inhabited α] (hist hist' : List (Grid α))
+    (hl : hist.getLast? = hist'.getLast?) (b0 b1 T : Nat) (rule : BlockRule2 σ α) (s : σ) :
+    (evolve2dBlock hist b0 b1 T rule s).map (fun p => (p.1.drop hist.length, p.2))
+      = (evolve2dBlock hist' b0 b1 T rule s).map (fun p => (p.1.drop hist'.length, p.2)) := by
+  unfold evolve2dBlock
+  rw [← hl]
+  cases hist.getLast? with
+  | none => rfl
+  | some init =>
+    simp only
+    split
+    · rfl
+    · split
+      · rfl
+      · split
+        · rfl
+        · simp [Except.map]
+
+/-- **Split law for `evolve2d_block`, odd `T1`** (2D analogue of `C10.evolveBlock_split_odd`): for a
+    block rule that ignores the step number, continuing a successful evolution of `T1` (odd) steps
+    for `T2` steps, rule state carried over, equals `T1+T2-1` steps at once. (For even `T1` the law
+    fails as in 1D: the partition alternates with the call-local step number.) -/
+theorem evolve2dBlock_split_odd [Inhabited α] (rule : BlockRule2 σ α)
+    (htf : ∀ s blk t t', rule s blk t = rule s blk t')
+    (hist : List (Grid α)) (init : Grid α) (hlast : hist.getLast? = some init) (b0 b1 T1 T2 : Nat)
+    (hodd : T1 % 2 = 1) (hT2 : 1 ≤ T2) (s s1 : σ) (mid : List (Grid α))
+    (hmid : evolve2dBlock hist b0 b1 T1 rule s = .ok (mid, s1)) :
+    evolve2dBlock mid b0 b1 T2 rule s1 = evolve2dBlock hist b0 b1 (T1 + T2 - 1) rule s := by
+  obtain ⟨hT1, h0, h1, hd0, hd1, hm, hs⟩ :=
+    (evolve2dBlock_ok_iff hist init hlast b0 b1 T1 rule s s1 mid).mp hmid
+  subst hm hs
+  have hlastm := getLast?_append_some2 hist (blockLoop2 rule b0 b1 (T1 - 1) 1 init s).1 init hlast
+  obtain ⟨e1, e2⟩ := blockLoop2_getLast_shape rule b0 b1 (T1 - 1) 1 init s
+  have hA := (evolve2dBlock_ok_iff _ _ hlastm b0 b1 T2 rule (blockLoop2 rule b0 b1 (T1 - 1) 1 init s).2
+    _ _).mpr ⟨by omega, h0, h1, by rw [e1]; exact hd0, by rw [e2]; exact hd1, rfl, rfl⟩
+  have hB := (evolve2dBlock_ok_iff hist init hlast b0 b1 (T1 + T2 - 1) rule s _ _).mpr
+    ⟨by omega, h0, h1, hd0, hd1, rfl, rfl⟩
+  rw [hA, hB]
+  have hk : T1 + T2 - 1 - 1 = (T1 - 1) + (T2 - 1) := by omega
+  rw [hk, blockLoop2_add]
+  have h1' : 1 + (T1 - 1) = T1 := by omega
+  rw [h1', blockLoop2_parity rule htf b0 b1 (T2 - 1) _ T1 1 (by omega), List.append_assoc]
+
+/-- Even `T1` (2D): the law fails (2×2 blocks on a 2×4 grid, the rule reversing each block row,
+    `T1 = 2`, `T2 = 2`). -/
+def swapRule2 : BlockRule2 Unit Int := fun u blk _ => (blk.map List.reverse, u)
+example : (evolve2dBlock [[[1, 2, 3, 4], [5, 6, 7, 8]]] 2 2 2 swapRule2 ()).toOption.map (·.1)
+    = some [[[1, 2, 3, 4], [5, 6, 7, 8]], [[2, 1, 4, 3], [6, 5, 8, 7]]] := by decide
+example : (evolve2dBlock [[[1, 2, 3, 4], [5, 6, 7, 8]], [[2, 1, 4, 3], [6, 5, 8, 7]]] 2 2 2 swapRule2 ()).toOption.map (·.1)
+    = some [[[1, 2, 3, 4], [5, 6, 7, 8]], [[2, 1, 4, 3], [6, 5, 8, 7]], [[1, 2, 3, 4], [5, 6, 7, 8]]] := by decide
+example : (evolve2dBlock [[[1, 2, 3, 4], [5, 6, 7, 8]]] 2 2 3 swapRule2 ()).toOption.map (·.1)
+    ≠ some [[[1, 2, 3, 4], [5, 6, 7, 8]], [[2, 1, 4, 3], [6, 5, 8, 7]], [[1, 2, 3, 4], [5, 6, 7, 8]]] := by decide
 
 end Cpl.C05
